@@ -15,7 +15,8 @@ RULE = ('the -O3 release library (assembly included) is run under valgrind memch
         'randomize, SIV, ISAP incl. key set-up and save/load) x (adlen, mlen) in a 10x10 boundary grid x {encrypt, decrypt genuine, '
         'decrypt with the tag wrong in byte 0 / 7 / 15, wrong ciphertext}; Prf, Prf-fixed, PrfShort, Mac, Mac-verify (tag wrong at 4 '
         'positions), incremental Prf; HMAC(A), KMAC(A), KDF(A), HKDF(A) one-shot + incremental, both PBKDF2s over key/input/output '
-        'length grids; ascon_random, PRNG init/fetch/feed/reseed.  Liveness: a planted branch on a secret byte must be reported; '
+        'length grids; ascon_random, PRNG init/fetch/feed/reseed.  Thorough tier, second oracle: valgrind lackey instruction+data '
+        'address traces of two runs that differ only in the secret bytes (read from a file) must be identical.  Liveness: a planted branch on a secret byte must be reported; '
         'distinct = (build, family, public shape)')
 ASSUME = ['only executed paths are judged; micro-architectural leakage is out of reach',
           'the C++ wrappers branch on the public accept/reject result and are not part of this check',
@@ -55,6 +56,59 @@ def run_under_memcheck(ctx, b, exe, name, extra_args, cases, shards):
     return parse_logs(glob.glob(os.path.join(b.dir, 'vg.%s.*.log' % name)))
 
 
+# pass through only the part of a lackey trace after the harness's marker (>= 10 consecutive " S <same address>,8" records,
+# instruction records in between ignored); valgrind's own "==pid==" lines are dropped
+AWK_AFTER_MARKER = ('/^==/ {next} started {print; next} /^ S / { if ($2 == prev) cnt++; else { cnt = 1; prev = $2 } if (cnt >= 10) started = 1; next } '
+                    '/^I/ {next} { cnt = 0; prev = "" }')
+
+
+def lackey_pairs(ctx, builds, exe_of):
+    """second, independent oracle (thorough): the complete instruction + data address trace (valgrind lackey) of two runs
+    that differ only in the secret bytes must be identical."""
+    import concurrent.futures as cf
+    import hashlib
+    import subprocess
+    import random
+    rnd = random.Random(ctx.seed)
+    files = []
+    for tag in 'AB':
+        p = os.path.join(ctx.scratch, 'secrets.' + tag)
+        with open(p, 'wb') as f:
+            f.write(bytes(rnd.getrandbits(8) for _ in range(1 << 16)))
+        files.append(p)
+    nsh = 16
+
+    def trace_digest(args):
+        b, shard, sf = args
+        cmd = ['valgrind', '--tool=lackey', '--trace-mem=yes', '--log-fd=3', exe_of[b.name], '--seed', str(ctx.seed), '--shard', '%d/%d' % (shard, nsh),
+               '--build', b.name, '--arg', 'secrets=' + sf]
+        p = subprocess.Popen(cmd, stdout=subprocess.DEVNULL, stderr=subprocess.DEVNULL, pass_fds=(), close_fds=False,
+                             preexec_fn=None) if False else None
+        # run through a shell so that fd 3 is a pipe we can stream
+        sh = ' '.join("'%s'" % c for c in cmd) + " 3>&1 1>/dev/null 2>/dev/null | awk '%s' | sha256sum; " % AWK_AFTER_MARKER
+        out = subprocess.run(['bash', '-c', sh + "true"], stdout=subprocess.PIPE, text=True, timeout=7200).stdout
+        # record count comes from a second cheap pass only when digests differ
+        return out.split()[0] if out.split() else 'none'
+
+    jobs = [(b, sh, f) for b in builds if b.name in exe_of for sh in range(nsh) for f in files]
+    with cf.ThreadPoolExecutor(max_workers=core.NCPU) as ex:
+        digs = list(ex.map(trace_digest, jobs))
+    res = {}
+    for (b, sh, f), d in zip(jobs, digs):
+        res.setdefault((b.name, sh), {})[f] = d
+    compared = 0
+    for (bn, sh), dd in sorted(res.items()):
+        vals = list(dd.values())
+        if 'none' in vals or hashlib.sha256(b'').hexdigest() in vals:
+            ctx.inconclusive.append('lackey produced no trace for %s shard %d' % (bn, sh))
+            continue
+        compared += 1
+        ctx.distinct.add('lackey-trace|%s|shard%d' % (bn, sh))
+        if vals[0] != vals[1]:
+            ctx.violations.append(Violation('C11', 'ct:address-trace-differs:%s' % bn.split('/')[0], {'build': bn, 'shard': sh, 'digest_a': vals[0], 'digest_b': vals[1]}))
+    ctx.counters['lackey_trace_pairs_compared'] = compared
+
+
 def run(ctx):
     ctx.rule, ctx.assumptions = RULE, ASSUME
     if ctx.thorough:
@@ -64,6 +118,7 @@ def run(ctx):
     builds = ctx.build_many([(c, 'rel') for c in cfgs])
     h = H['ct']
     total_err = 0
+    exe_of = {}
     for b in builds:
         if not b.ok:
             ctx.build_failed(b)
@@ -71,6 +126,7 @@ def run(ctx):
         exe, log = ctx.compile_harness(b, h['name'], h['sources'], extra=h.get('extra_flags', ()))
         if exe is None:
             raise core.HarnessError('h_ct does not compile: ' + log[-3000:])
+        exe_of[b.name] = exe
         # liveness canary
         errs = run_under_memcheck(ctx, b, exe, 'ct-canary', ['--arg', 'canary'], None, 1)
         if not any(any(fr[0] == 'vf_ct_canary' for fr in frames) for kind, frames in errs):
@@ -85,6 +141,8 @@ def run(ctx):
             k = 'ct:%s:%s' % ('branch' if kind.startswith('Conditional') else 'address' if kind.startswith('Use') else 'syscall', fn)
             if not any(v.key == k and v.build is b for v in ctx.violations):
                 ctx.violations.append(Violation('C11', k, {'build': b.name, 'memcheck': kind, 'stack': ['%s (%s)' % fr for fr in frames[:10]]}, build=b, harness='ct'))
+    if ctx.thorough:
+        lackey_pairs(ctx, [b for b in builds if b.ok][:3], exe_of)
     ctx.counters['memcheck_reports'] = total_err
     if len(ctx.samples) < 6:
         ctx.samples.append({'op': 'ascon128_aead_decrypt', 'secret': 'key (16 bytes) + plaintext-derived state', 'public': 'nonce, AD, ciphertext, tag wrong in byte 7', 'shape': 'adlen=9 mlen=17'})
